@@ -143,7 +143,7 @@ void harness(void){
 #endif
     unsigned char chunk0[N]; for(size_t i=0;i<N;i++) chunk0[i]=CHUNK[i];
     int64_t so0=C.out_stream_offset, ml0=TX.response_message_len, left0=C.out_body_data_left, ck0=C.out_chunked_length; unsigned st0=C.out_status;
-    int had_buf=C.out_buf!=NULL; size_t bs0=C.out_buf_size; unsigned prog0=TX.response_progress; unsigned s100=TX.seen_100continue;
+    int had_buf=C.out_buf!=NULL; size_t bs0=C.out_buf_size; unsigned prog0=TX.response_progress; unsigned s100=TX.seen_100continue; int64_t in_cl0=C.in_content_length, in_left0=C.in_body_data_left;
 #if STATE==S_BODY_DETERMINE
     /* known finding: an inbound STOP is overwritten by the 407 / refused-CONNECT / 101 paths */
     KF_GATE(KF_MODE_C09_stop_overwritten, ist==HTP_STREAM_STOP && ((TX.request_method_number==HTP_M_CONNECT && !(TX.response_status_number>=200&&TX.response_status_number<=299)) || (TX.response_status_number==101 && !has_te && !has_cl)));
@@ -211,6 +211,12 @@ void harness(void){
     else if(TX.response_status_number==101 && !has_te && !has_cl){ assert(C.out_state==htp_connp_RES_FINALIZE && C.out_status==HTP_STREAM_TUNNEL && rc==rc_headers); if(ist!=HTP_STREAM_ERROR && ist!=HTP_STREAM_STOP) assert(C.in_status==HTP_STREAM_TUNNEL); }
     else if(TX.request_method_number==HTP_M_CONNECT){ if(ist!=HTP_STREAM_ERROR && ist!=HTP_STREAM_STOP) assert(C.in_status==HTP_STREAM_DATA); if(TX.response_status_number!=407) assert(C.out_data_other_at_tx_end==1); }
     else assert(C.in_status==ist);
+    /* C06: the request body is cut short only for a 4xx answer to an Expect: 100-continue request whose body has not started */
+    { int expect4xx = TX.response_status_number>=400 && TX.response_status_number<=499 && in_cl0>0 && in_left0==in_cl0 && has_exp && bstr_len(H_EXP.value)==12;
+      int restart = (rc==HTP_OK && C.out_state==htp_connp_RES_LINE);
+      int early = (TX.request_method_number==HTP_M_CONNECT && TX.response_status_number>=200 && TX.response_status_number<=299) || (TX.response_status_number==101 && !has_te && !has_cl);
+      if(!restart && !early){ if(expect4xx) assert(C.in_state==htp_connp_REQ_FINALIZE); else assert(C.in_state==htp_connp_REQ_CONNECT_WAIT_RESPONSE); }
+      VERIF_COVER(expect4xx && !restart && !early, "4xx answer to Expect: 100-continue"); }
     VERIF_COVER(rc==HTP_OK && C.out_state==htp_connp_RES_BODY_CHUNKED_LENGTH && (TX.flags&HTP_REQUEST_SMUGGLING), "TE chunked with CL");
     VERIF_COVER(rc==HTP_OK && C.out_state==htp_connp_RES_LINE, "interim 100 restart");
 #elif STATE==S_IDLE
